@@ -397,6 +397,7 @@ def unmarshal_contract():
         case('unknown-type', w_unknown, raises=UE),
     ]
     return Contract(FRM + 'unmarshal', [('data_in', T.bytes)], cases=cases,
+                    views={FRM + '_unmarshal_method_frame': 't', FRM + '_unmarshal_header_frame': 't'},
                     doc='C06/C07/C09/C18/C20: total contract over arbitrary byte strings')
 
 
@@ -408,12 +409,12 @@ def unmarshal_payload_contracts_assumed():
     out.append(Contract(FRM + '_unmarshal_method_frame', [('frame_data', T.bytes)], cases=[
         Case('a-method-or-UnmarshalingException', post=lambda c, r: isinstance(r, SObj) and issubclass(r.cls, base.Frame),
              havoc=lambda c: SObj(base.Frame, {}, provenance='fresh'), may_raise=(UE,))], name=FRM + '_unmarshal_method_frame(t)',
-        trusted=True))
+        trusted=True, view='t'))
     out.append(Contract(FRM + '_unmarshal_header_frame', [('frame_data', T.bytes)], cases=[
         Case('a-content-header-or-UnmarshalingException',
              post=lambda c, r: isinstance(r, SObj) and issubclass(r.cls, header.ContentHeader),
              havoc=lambda c: SObj(header.ContentHeader, {}, provenance='fresh'), may_raise=(UE,))],
-        name=FRM + '_unmarshal_header_frame(t)', trusted=True))
+        name=FRM + '_unmarshal_header_frame(t)', trusted=True, view='t'))
     return out
 
 
@@ -468,7 +469,12 @@ def frame_marshal_contract():
         Case('heartbeat', when=lambda c: kind(c) == 'heartbeat', returns=lambda c: wire.HEARTBEAT_FRAME),
         Case('not-a-frame', when=lambda c: kind(c) == 'other', raises=ValueError),
     ]
+    def not_method_or_header(fn, args):
+        v = args[0] if args else None
+        return not (isinstance(v, SObj) and issubclass(v.cls, (base.Frame, header.ContentHeader)))
+
     return Contract(FRM + 'marshal', [('frame_value', fv), ('channel_id', T.int)], cases=cases,
+                    selector=not_method_or_header,
                     doc='C04/C18: dispatch over the frame kinds (method and content-header kinds: see per-class contracts)')
 
 
@@ -663,4 +669,5 @@ def unmarshal_envelope_contract():
     return Contract(FRM + 'unmarshal', [('data_in', T.bytes)],
                     cases=[Case('envelope', post=post, may_raise=(Exception,))],
                     name=FRM + 'unmarshal(env)', selector=lambda fn, args: False, bounded=False,
+                    views={FRM + '_unmarshal_method_frame': 't', FRM + '_unmarshal_header_frame': 't'},
                     doc='C06/C07 envelope clause over all byte strings on which decoding succeeds')
